@@ -1,7 +1,7 @@
 #!/bin/bash
 # usage: tools/seed_lane.sh <Cxxc> <base_commit> <round>   import the three seeds of one sub-agent, try each against its property's check
 # in a private scratch worktree (/tmp/mut_<Cxxc>), write /tmp/lane_<Cxxc>-<n>.log, remove the worktree.
-T=$1; BASEC=$2; ROUND=$3; P=${T%[bcd]}
+T=$1; BASEC=$2; ROUND=$3; P=${T%[b-z]}
 cd /verif && tools/import_seeds.sh $T $BASEC $ROUND
 for n in 1 2 3; do
   [ -d seeded/$T-$n ] || continue
